@@ -48,9 +48,22 @@ CHECKS.update({
   note=BASE + "Outside: malformed lines (decoder), task isolation between sessions (tokio), resource exhaustion, code not reached by those families.", ref="4 C17"),
 })
 
+CHECKS.update({
+ "C03": dict(
+  text="Worterbuch-level one-request steps on the real core (Worterbuch::{subscribe, psubscribe, unsubscribe, set, cset, delete, pdelete, publish}, "
+       "notify_subscribers, Subscribers, Store) with the subscriber queue as model channel: snapshot first (unless live-only) and exactly once; every accepted "
+       "change of a matching key delivered exactly once with key, kind (value/deleted) and value, in application order (pdelete over two keys, two subscribers); "
+       "value-preserving writes suppressed only for unique subscriptions; nothing for rejected requests or non-matching keys; nothing after unsubscribe; plus the "
+       "subscriber routing relation of C04 for all patterns of <= 2 segments.",
+  note=BASE + "async/.await de-sugared lexically for the Kani build (gen/deasync.py), counterexamples replayed on the original async code with real tokio. "
+       "Decisions that depend on a CAS version read back from the tree are made on literal versions (the engine does not fold them; all 2^64 versions are C02's). "
+       "Outside: per-subscription forwarding tasks and socket writers (protocol v0, tokio::spawn), back-pressure on a full queue (pruned), extended_monitoring, import (JSON text).",
+  ref="4 C03"),
+})
+
 NA = {
 }
-PENDING = ["C03","C07","C08","C09","C10","C11","C12","C13","C15","C16","C19"]
+PENDING = ["C07","C08","C09","C10","C11","C12","C13","C15","C16","C19"]
 NA_FIXED = {
  "C14": "the property is the serde_json text codec composed with serde derives; the real codec exhausts 17-19 GB / 10 min under Kani/CBMC for a one-field message (measured), and a model codec would only verify the model",
  "C18": "ReDB is an on-disk B-tree behind a background writer task and file I/O; neither the database nor the batching schedule can be executed symbolically here and no pure kernel of the property remains",
